@@ -4,7 +4,7 @@
 use crate::exec::model_bytes;
 use simcore::lay::Ops;
 use simcore::prng::Rng;
-use simcore::seams::{InputMode, IoPlan, RlMode};
+use simcore::seams::{InputMode, IoPlan, Nest, RlMode};
 use simcore::trace::{Fault, Reader, Record, SerdeOp, Shape, Trace, Writer, READERS, SHAPES, WRITERS};
 
 pub const MAX_RECORDS: usize = 8;
@@ -241,7 +241,24 @@ pub fn generate(world: &World, seed: u64, run: u64) -> Trace {
         serde.push(SerdeOp { lay, bits, wrapping: rng.chance(1, 2) });
     }
 
-    Trace { seed, run, input: InputMode { rl, native_read_byte, io }, records, sampled_faults: sampled, serde }
+    // a second task interleaved at one seam call of every record (drawn last, so that the rest of the
+    // history is the same as before this dimension existed)
+    let nest = if rng.chance(1, 4) {
+        let lay = if rng.chance(1, 3) {
+            let peers = &world.by_width[widx(table[records[0].w_lay as usize].w)];
+            peers[rng.below(peers.len() as u64) as usize]
+        } else {
+            rng.below(table.len() as u64) as u16
+        };
+        let c = rng.pick_bit(class_mask);
+        let bits = value_of_class(&mut rng, c, table[lay as usize].w);
+        let at = if rng.chance(2, 3) { 0 } else { rng.below(4) as u8 };
+        Some(Nest { lay, bits, at, after: rng.chance(1, 2) })
+    } else {
+        None
+    };
+
+    Trace { seed, run, input: InputMode { rl, native_read_byte, io, nest }, records, sampled_faults: sampled, serde }
 }
 
 #[derive(Clone, Copy, PartialEq, Eq, Debug)]
@@ -347,13 +364,103 @@ pub fn ub_probe_traces(world: &World) -> Vec<Trace> {
                     continue; // the IoReader path is exercised on the first history only
                 }
                 let input = if io {
-                    InputMode { rl: RlMode::None, native_read_byte: false, io: Some(IoPlan { chunks: vec![3, 1, 5], eintr_mask: 0b1001_0010 }) }
+                    InputMode { rl: RlMode::None, native_read_byte: false, io: Some(IoPlan { chunks: vec![3, 1, 5], eintr_mask: 0b1001_0010 }), nest: None }
                 } else {
                     InputMode::plain()
                 };
                 out.push(Trace { seed: 0, run: (fam as u64) * 4 + (k as u64) * 2 + io as u64, input, records: records.clone(), sampled_faults: vec![], serde: vec![] });
             }
+            if k == 0 {
+                // the first history once more with a second task (a value of another family) run inside
+                // the first seam call of every record, after the call was served: re-entrancy into the
+                // codec while a decode / encode of this family is suspended
+                let ofam = (fam + 3) % 10;
+                if let Some(olay) = world.table.iter().position(|o| o.fam == ofam && o.frac == o.w / 2) {
+                    let ow = world.table[olay].w as u128 / 8;
+                    let obits = (0..ow).fold(0u128, |a, i| a | ((0xf0 - i) << (8 * i)));
+                    let input = InputMode { nest: Some(Nest { lay: olay as u16, bits: obits, at: 0, after: true }), ..InputMode::plain() };
+                    out.push(Trace { seed: 0, run: (fam as u64) * 4 + 3, input, records: records.clone(), sampled_faults: vec![], serde: vec![] });
+                }
+            }
         }
     }
     out
+}
+
+// ------------------------------------------------------------------ structured sweep of the wide layouts
+
+/// The 64- and 128-bit value spaces cannot be swept; these PRNG-free sub-spaces are, completely, for every
+/// wide layout (lean loop): (A) every pair of byte positions x all 65 536 values of those two bytes x three
+/// backgrounds for the other bytes (00, ff, all distinct), (B) every combination of four sub-words (32-bit
+/// words for 128-bit layouts, 16-bit for 64-bit ones) drawn from a palette of boundary and pattern words.
+/// They are the classes the seeded changes of DESIGN.md §4.10 keyed on: a value window of a narrower type,
+/// equal or sign-extending neighbouring limbs, a particular byte moved or masked.
+pub const PAL32: [u32; 48] = [
+    0, 1, 2, 3, 0x7f, 0x80, 0xfe, 0xff, 0x100, 0x7fff, 0x8000, 0xffff, 0x1_0000, 0x0100_0000, 0x7fff_ffff, 0x8000_0000, 0x8000_0001, 0xc000_0000,
+    0xffff_fffe, 0xffff_ffff, 0x0102_0304, 0x0403_0201, 0xdead_beef, 0x1234_5678, 0x9abc_def0, 0xa5a5_a5a5, 0x5a5a_5a5a, 0x00ff_00ff, 0xff00_ff00,
+    0x0000_ffff, 0xffff_0000, 0x0080_0000, 0xff00_0000, 0xfeff_ffff, 0xffff_feff, 0x7f7f_7f7f, 0x8080_8080, 0x0101_0101, 0xfefe_fefe, 0x0f0f_0f0f,
+    0xf0f0_f0f0, 0x3333_3333, 0xcccc_cccc, 0x5555_5555, 0xaaaa_aaaa, 0x00ff_ff00, 0xff00_00ff, 0x7fff_ff80,
+];
+pub const PAL16: [u16; 32] = [
+    0, 1, 2, 0x7f, 0x80, 0xfe, 0xff, 0x100, 0x101, 0x7ffe, 0x7fff, 0x8000, 0x8001, 0xc000, 0xfeff, 0xfffe, 0xffff, 0x0102, 0x0201, 0xbeef, 0xdead,
+    0x1234, 0xa5a5, 0x5a5a, 0x00ff, 0xff00, 0x0f0f, 0xf0f0, 0x5555, 0xaaaa, 0x7f80, 0x807f,
+];
+pub fn structured_total(w: u32) -> u64 {
+    let nb = (w / 8) as u64;
+    let a = nb * (nb - 1) / 2 * 65536 * 3;
+    let b = if w == 128 { 48u64.pow(4) } else { 32u64.pow(4) };
+    a + b
+}
+fn pair_table(nb: u64) -> &'static [(u8, u8)] {
+    use std::sync::OnceLock;
+    static T8: OnceLock<Vec<(u8, u8)>> = OnceLock::new();
+    static T16: OnceLock<Vec<(u8, u8)>> = OnceLock::new();
+    let mk = |nb: u64| {
+        let mut v = Vec::new();
+        for x in 0..nb {
+            for y in x + 1..nb {
+                v.push((x as u8, y as u8));
+            }
+        }
+        v
+    };
+    if nb == 8 {
+        T8.get_or_init(|| mk(8))
+    } else {
+        T16.get_or_init(|| mk(16))
+    }
+}
+#[inline]
+pub fn structured_pattern(w: u32, idx: u64) -> u128 {
+    let nb = (w / 8) as u64;
+    let a = nb * (nb - 1) / 2 * 65536 * 3;
+    let mask = if w == 128 { u128::MAX } else { (1u128 << w) - 1 };
+    if idx < a {
+        let bg = idx % 3;
+        let rest = idx / 3;
+        let val = (rest % 65536) as u128;
+        let (i, j) = pair_table(nb)[(rest / 65536) as usize];
+        let back: u128 = match bg {
+            0 => 0,
+            1 => u128::MAX,
+            _ => 0x1f1e_1d1c_1b1a_1918_1716_1514_1312_1110, // byte k = 0x10 + k
+        };
+        let hole = !((0xffu128 << (8 * i as u32)) | (0xffu128 << (8 * j as u32)));
+        ((back & hole) | ((val & 0xff) << (8 * i as u32)) | ((val >> 8) << (8 * j as u32))) & mask
+    } else {
+        let mut r = idx - a;
+        let mut v: u128 = 0;
+        if w == 128 {
+            for k in 0..4 {
+                v |= (PAL32[(r % 48) as usize] as u128) << (32 * k);
+                r /= 48;
+            }
+        } else {
+            for k in 0..4 {
+                v |= (PAL16[(r % 32) as usize] as u128) << (16 * k);
+                r /= 32;
+            }
+        }
+        v
+    }
 }
